@@ -148,6 +148,21 @@ class UTPM(Ring, RawAlgorithmsMixIn):
             sl = sl + (Ellipsis,)
         return numpy.moveaxis(data, (0,1), (-2,-1)), sl + (d, slice(None))
 
+    @staticmethod
+    def _check_fits(rhs_shape, sel_shape):
+        """ x[sl] = rhs: the right-hand side is broadcast INTO the selection as in NumPy (leading
+        axes of size one may be dropped), the selection is never broadcast up and an axis of rhs
+        is never matched against the direction axis """
+        shp = tuple(rhs_shape)
+        while len(shp) > len(sel_shape) and shp[0] == 1:
+            shp = shp[1:]
+        try:
+            ok = numpy.broadcast_shapes(shp, tuple(sel_shape)) == tuple(sel_shape)
+        except ValueError:
+            ok = False
+        if not ok:
+            raise ValueError('could not broadcast input of shape %s into shape %s'%(tuple(rhs_shape), tuple(sel_shape)))
+
     def __getitem__(self, sl):
         if not isinstance(sl, tuple):
             sl = (sl,)
@@ -172,6 +187,7 @@ class UTPM(Ring, RawAlgorithmsMixIn):
         if isinstance(rhs, UTPM):
             idx = (slice(None),slice(None)) + sl
             x_data, y_data = UTPM._broadcast_arrays(self.data.__getitem__(idx), rhs.data)
+            self._check_fits(rhs.data.shape[2:], self.data.__getitem__(idx).shape[2:])
             if not numpy.may_share_memory(x_data, self.data):
                 # advanced (integer array / boolean mask) index: the selection is a copy,
                 # the values are written through the index itself
@@ -183,6 +199,7 @@ class UTPM(Ring, RawAlgorithmsMixIn):
             if isinstance(rhs, numpy.ndarray) and numpy.may_share_memory(self.data, rhs):
                 # x[sl] = x.data[1,0]: the higher coefficients are cleared before rhs is read
                 rhs = rhs.copy()
+            self._check_fits(numpy.shape(rhs), self.data.__getitem__((slice(None),slice(None)) + sl).shape[2:])
             self.data.__setitem__((slice(1,None),slice(None)) + sl, 0)
             # (indexing the view data[0]: an integer 0 in front of an advanced index in sl
             # would move the index axis in front of the direction axis)
